@@ -330,6 +330,7 @@ type Session struct {
 	Rig  *Rig
 	SE   *server.SessionExecutor
 	sink *sink
+	buf  []byte // the connection's reused read buffer
 }
 
 // NewSession opens a fresh session (fresh SessionExecutor: no statements, no variables).
@@ -344,10 +345,26 @@ func (r *Rig) NewSession(multi bool) *Session {
 	return &Session{Rig: r, SE: se, sink: sk}
 }
 
-// Cmd sends one command to the session executor the way Session.Run does.
+// Cmd sends one command to the session executor the way Session.Run does: the payload is
+// placed in the session's ONE read buffer (Session.Run reads every packet with
+// mysql.Conn.ReadEphemeralPacket into a pooled buffer and hands it back with
+// RecycleReadPacket as soon as the command has been executed, so the memory of a packet is
+// overwritten by later packets — of this or of any other connection). After the command the
+// used part of the buffer is filled with 0xEE (contents of a recycled buffer are arbitrary),
+// and the next command is copied over it. State that aliases the packet is thereby visible.
 func (s *Session) Cmd(cmd byte, data []byte) server.Response {
+	if cap(s.buf) < len(data) || s.buf == nil {
+		s.buf = make([]byte, 2*len(data)+4096)
+	}
+	n := copy(s.buf[:cap(s.buf)], data)
+	defer func() {
+		b := s.buf[:n]
+		for i := range b {
+			b[i] = 0xEE
+		}
+	}()
 	server.VerifBeforeCommand(s.SE)
-	return s.SE.ExecuteCommand(cmd, data)
+	return s.SE.ExecuteCommand(cmd, s.buf[:n:n])
 }
 
 // Query sends COM_QUERY; err is the error the client would receive (nil on success).
